@@ -49,7 +49,7 @@ def ba_plan(c):
         lines = []; sizes = {}
         def live(): return list(sizes)
         for step in range(depth):
-            ops = ['new', 'copy', 'assign', 'resize', 'push', 'pop', 'index_set', 'data_set', 'index_get', 'reserve', 'clear', 'cmp', 'iter', 'del']
+            ops = ['new', 'copy', 'assign', 'resize', 'push', 'push_from', 'pop', 'index_set', 'data_set', 'index_get', 'reserve', 'clear', 'cmp', 'iter', 'del']
             op = rng.choice(ops)
             if not sizes or (op == 'new' and len(sizes) < 4):
                 v = max(sizes) + 1 if sizes else 1
@@ -65,6 +65,11 @@ def ba_plan(c):
                 lines.append('ba.resize obj=%d n=%d' % (v, n)); sizes[v] = n
             elif op == 'push':
                 v = rng.choice(live()); lines.append('ba.push obj=%d value=%d' % (v, rng.randrange(1, 256))); sizes[v] += 1
+            elif op == 'push_from':
+                cand = [v for v in live() if sizes[v] > 0]
+                if not cand: continue
+                s = rng.choice(cand); v = rng.choice([s, s, rng.choice(live())])
+                lines.append('ba.push_from obj=%d src=%d pos=%d via=%s' % (v, s, rng.choice([0, sizes[s] - 1, rng.randrange(sizes[s])]), rng.choice(['index', 'cindex', 'data', 'iter']))); sizes[v] += 1
             elif op == 'pop':
                 v = rng.choice(live()); lines.append('ba.pop obj=%d' % v); sizes[v] = max(0, sizes[v] - 1)
             elif op in ('index_set', 'data_set', 'index_get'):
@@ -101,6 +106,12 @@ def ba_plan(c):
             p.case(['ba.new obj=1 how=sized n=%d value=7' % n, 'ba.reserve obj=1 n=%d' % (n + extra), 'ba.new obj=2 how=copy src=1', 'ba.push obj=2 value=1', 'ba.push obj=1 value=2',
                     'ba.push obj=2 value=3', 'ba.new obj=3 how=copy src=2', 'ba.pop obj=3', 'ba.push obj=3 value=4', 'ba.push obj=2 value=5', 'ba.cmp obj=2 other=3'], cost=0.5)
             c.distinct([('sharedroom', n, extra)])
+    # an element of the array pushed onto the same array exactly when it is full (the buffer moves), sole owner and shared
+    for n in (1, 15, 16, 17, 32, 48):
+        for via in ('index', 'cindex', 'data', 'iter'):
+            p.case(['ba.new obj=1 how=sized n=%d value=7' % n, 'ba.index_set obj=1 pos=%d value=201' % (n // 2), 'ba.push_from obj=1 src=1 pos=%d via=%s' % (n // 2, via), 'ba.push_from obj=1 src=1 pos=%d via=%s' % (n, via),
+                    'ba.new obj=2 how=copy src=1', 'ba.push_from obj=2 src=2 pos=%d via=%s' % (n // 2, via), 'ba.push_from obj=1 src=2 pos=%d via=%s' % (n + 2, via), 'ba.cmp obj=1 other=2'], cost=0.5)
+            c.distinct([('pushself', n, via)])
     # shrink then grow within capacity: new elements are zero
     p.case(['ba.new obj=1 how=sized n=8 value=170', 'ba.resize obj=1 n=3', 'ba.resize obj=1 n=8', 'ba.new obj=2 how=sized n=16 value=1', 'ba.resize obj=2 n=0', 'ba.resize obj=2 n=16',
             'ba.pop obj=2', 'ba.push obj=2 value=4', 'ba.resize obj=2 n=17'], cost=0.5)
@@ -141,6 +152,14 @@ def run(c):
         for raw in (b'4142\x00zz', b'4142\x00', b'41\x0042', b'\x00', b'\x004142', b'41 42\x00 43', b'4\x001'):
             lines += ['util.from_hex str=%s form=%s' % (hx(raw), f) for f in ('len', 'string')]
         p.case(lines, cost=3.0)
+        # the C++ encoder for every length around its internal sizes, both overloads; the decoder must give the bytes back
+        lines = []
+        for n in sorted(set([0, 1, 2, 31, 32, 33, 63, 64, 65, 127, 128, 129, 191, 192, 193, 255, 256, 257, 300] + [rng.randrange(0, 400) for _ in range(6)])):
+            d = pattern(rng, n, 'rand'); up = rng.randrange(2)
+            lines += ['util.to_hex in=%s form=%s upper=%d dflt=%d' % (hx(d), f, up, rng.randrange(2)) for f in ('ptr', 'ba')]
+            lines += ['util.from_hex str=%s form=string' % hx((d.hex().upper() if up else d.hex()).encode())]
+            c.distinct([('cxxrt', n)])
+        p.case(lines, cost=8.0)
         c.tv(p, 'rel', 'cxxhex', drv=drvx, max_cost=12.0)
     c.cov['exhaustive'] = True
     c.cov['rule'] = 'hex: per character / per class-string / per random round trip; byte_array: per random walk (40 operations) and directed aliasing case; distinct = those cases'
